@@ -107,7 +107,7 @@ Definition pinned : variant :=
 Definition repaired : variant :=
   {| v_cigar_bytes := fun n => n * 4;
      v_chrom := fun names i => py_index (names ++ [[42]]) i |}.
-Definition current : variant := pinned.        (* <- the one-line switch *)
+Definition current : variant := repaired.        (* <- the one-line switch *)
 
 (* --- record boundaries: BamBuffer._find_starts ---
    starts = takewhile(start <= len(chunk), iterate(start -> start + from_bytes(chunk[start:start+4]) + 4, 0)) *)
